@@ -76,7 +76,7 @@ def boot(cfgv):
     yabgp.config.get_bgp_config()
     CONF.bgp.running_config['capability']['local']['afi_safi'] = [(1, 1)]
     if 'caps' in cfgv:
-        CONF.bgp.running_config['capability'] = cfgv['caps']
+        CONF.bgp.running_config['capability'] = unj(cfgv['caps'])
     R.reset_()
     R.now = float(cfgv.get('now', 1000.0))
     from yabgp.core.factory import BGPPeering
